@@ -320,6 +320,15 @@ def r_unstable_key(ck: Checker, rule: str, entries: list[tuple[str, str]], why: 
     by_simple: dict[str, list[int]] = {}
     for i, (_, q, fn, _c) in enumerate(funcs):
         by_simple.setdefault(fn.name, []).append(i)
+    # `name = function` in a class body / module / `cls.name = function`: calling `name` is calling the function
+    alias: dict[str, set[str]] = {}
+    for m in mods:
+        for st in ast.walk(m.tree):
+            if isinstance(st, ast.Assign) and isinstance(st.value, ast.Name) and st.value.id in by_simple:
+                for tg in st.targets:
+                    nm = tg.id if isinstance(tg, ast.Name) else (tg.attr if isinstance(tg, ast.Attribute) else None)
+                    if nm and nm != st.value.id:
+                        alias.setdefault(nm, set()).add(st.value.id)
     # reachability by simple name (calls, references passed as arguments, decorators of a reached function, functions nested in it)
     reach: set[int] = set()
     work = [i for i, (m, q, fn, _c) in enumerate(funcs) if any(m.name == em and (q == eq or q.startswith(eq + ".")) for em, eq in entries)]
@@ -348,7 +357,7 @@ def r_unstable_key(ck: Checker, rule: str, entries: list[tuple[str, str]], why: 
                 names.add(n.attr)  # (properties)
         for d in fn.decorator_list:
             names |= {x.id for x in ast.walk(d) if isinstance(x, ast.Name)}
-        for nm in names:
+        for nm in set(names) | {a_ for n_ in names for a_ in alias.get(n_, ())}:
             for j in by_simple.get(nm, []):
                 if j not in reach:
                     work.append(j)
@@ -377,6 +386,18 @@ def r_unstable_key(ck: Checker, rule: str, entries: list[tuple[str, str]], why: 
                 if len(defs) != 1:
                     break
                 e = defs[0]
+            return e
+
+        _resolve_local = resolve
+
+        def resolve(e: ast.expr) -> ast.expr:  # type: ignore[no-redef]
+            e = _resolve_local(e)
+            # a key computed by a one-expression helper: what the helper returns is what keys the table
+            if isinstance(e, ast.Call) and isinstance(e.func, ast.Name) and len(by_simple.get(e.func.id, [])) == 1:
+                h = funcs[by_simple[e.func.id][0]][2]
+                rets = [r for r in ast.walk(h) if isinstance(r, ast.Return) and r.value is not None]
+                if len(rets) == 1:
+                    return rets[0].value
             return e
 
         accesses: list[tuple[ast.AST, str, ast.expr]] = []
@@ -524,3 +545,164 @@ def r_mutable_default(ck: Checker, rule: str, modnames: tuple[str, ...]) -> None
                     ck.holds(rule, (m_.rel, q), fn, what)
     if n == 0:
         ck.holds(rule, (modnames[0], "*"), None, f"no function of {', '.join(modnames)} has a mutable container as a default argument")
+
+
+def r_iter_stored(ck: Checker, rule: str, modnames: tuple[str, ...]) -> None:
+    """A one-shot iterator (map / filter / zip / a generator expression / a generator method) kept in a table that outlives the call is
+    exhausted by its first reader: the second caller iterates nothing (positive pattern: such a value stored into a module- or class-level
+    table, or returned from a memoised function)."""
+    n = 0
+    for modname in modnames:
+        m_ = ck.repo.mod(modname)
+        tables = {tg.id for st in m_.tree.body for tg in ([st.targets[0]] if isinstance(st, ast.Assign) and len(st.targets) == 1 else [st.target] if isinstance(st, ast.AnnAssign) else [])
+                  if isinstance(tg, ast.Name) and _mutable_container(getattr(st, "value", None))}
+
+        def oneshot(v: ast.expr, fn: ast.AST) -> bool:
+            if isinstance(v, ast.Name):
+                defs = [st.value for st in ast.walk(fn) if isinstance(st, ast.Assign) and len(st.targets) == 1 and isinstance(st.targets[0], ast.Name) and st.targets[0].id == v.id]
+                defs += [st.value for st in ast.walk(fn) if isinstance(st, ast.NamedExpr) and st.target.id == v.id]
+                return len(defs) == 1 and oneshot(defs[0], fn)
+            return isinstance(v, ast.GeneratorExp) or (isinstance(v, ast.Call) and ((dotted(v.func) or "") in _GEN_BUILTINS or (isinstance(v.func, ast.Attribute) and v.func.attr in _GEN_METHODS)))
+        for q, fn, _cls in _raw_functions(m_):
+            memo = any((dotted(d.func if isinstance(d, ast.Call) else d) or "").split(".")[-1] in ("lru_cache", "cache", "cached") for d in fn.decorator_list)
+            for x in ast.walk(fn):
+                bad = None
+                if isinstance(x, ast.Assign) and any(isinstance(t_, ast.Subscript) and isinstance(t_.value, ast.Name) and t_.value.id in tables for t_ in x.targets) and oneshot(x.value, fn):
+                    bad = x
+                elif isinstance(x, ast.NamedExpr) and False:
+                    pass
+                elif isinstance(x, ast.Call) and isinstance(x.func, ast.Attribute) and x.func.attr == "setdefault" and isinstance(x.func.value, ast.Name) and x.func.value.id in tables \
+                        and len(x.args) == 2 and oneshot(x.args[1], fn):
+                    bad = x
+                elif memo and isinstance(x, ast.Return) and x.value is not None and oneshot(x.value, fn):
+                    bad = x
+                if bad is not None:
+                    n += 1
+                    ck.violation(rule, (m_.rel, q), bad, f"{q}: what is kept beyond the call can be read any number of times", positive=True,
+                                 construct=f"{q}: {norm(bad)[:70]} keeps a one-shot iterator — the first reader exhausts it, every later reader sees nothing")
+    if n == 0:
+        ck.holds(rule, (modnames[0], "*"), None, f"no one-shot iterator is kept in a table or memoised in {', '.join(modnames)}")
+
+
+def r_returns_shared(ck: Checker, rule: str, modnames: tuple[str, ...]) -> None:
+    """A function that hands out a module-level mutable container (`return _EMPTY` with `_EMPTY = {}`) hands every caller the same object:
+    what one caller adds to "its" result is there for all later ones (positive pattern)."""
+    n = 0
+    for modname in modnames:
+        m_ = ck.repo.mod(modname)
+        shared = {tg.id for st in m_.tree.body for tg in ([st.targets[0]] if isinstance(st, ast.Assign) and len(st.targets) == 1 else [st.target] if isinstance(st, ast.AnnAssign) else [])
+                  if isinstance(tg, ast.Name) and _mutable_container(getattr(st, "value", None))} - _REGISTRIES
+        for q, fn, _cls in _raw_functions(m_):
+            local = {t_.id for st in ast.walk(fn) if isinstance(st, ast.Assign) for t_ in st.targets if isinstance(t_, ast.Name)}
+            for r in ast.walk(fn):
+                if isinstance(r, ast.Return) and r.value is not None:
+                    vals = [r.value] + ([r.value.body, r.value.orelse] if isinstance(r.value, ast.IfExp) else [])
+                    for v in vals:
+                        if isinstance(v, ast.Name) and v.id in shared and v.id not in local:
+                            n += 1
+                            ck.violation(rule, (m_.rel, q), r, f"{q}: a result handed to the caller is the caller's own object", positive=True,
+                                         construct=f"{q}: returns the module-level container `{v.id}` — every caller gets the same object, and what one of them adds to it is seen by all later calls")
+    if n == 0:
+        ck.holds(rule, (modnames[0], "*"), None, f"no function of {', '.join(modnames)} returns a module-level mutable container")
+
+
+def r_memo_keeps_alive(ck: Checker, rule: str, modnames: tuple[str, ...], why: str) -> None:
+    """lru_cache / cache on a function that receives live objects (a parameter named value / node / obj / item / instance, or annotated
+    with a node class) keeps a strong reference to every argument it has seen, and answers for an equal-but-distinct argument from the
+    entry of the first one (positive pattern; functions of annotations / classes / texts are not concerned)."""
+    LIVE = ("value", "node", "obj", "o", "item", "instance", "self", "other", "child")
+    n = 0
+    for modname in modnames:
+        m_ = ck.repo.mod(modname)
+        for q, fn, _cls in _raw_functions(m_):
+            memo = [(dotted(d.func if isinstance(d, ast.Call) else d) or "") for d in fn.decorator_list]
+            memo = [d for d in memo if d.split(".")[-1] in ("lru_cache", "cache", "cached")]
+            if not memo:
+                continue
+            n += 1
+            live = [a.arg for a in fn.args.args + fn.args.kwonlyargs if a.arg in LIVE or (a.annotation is not None and "ASTNode" in norm(a.annotation) and "type[" not in norm(a.annotation).lower())]
+            what = f"{q}: memoised functions receive annotations, classes or texts only, never live values ({why})"
+            if live:
+                ck.violation(rule, (m_.rel, q), fn, what, positive=True,
+                             construct=f"{q} is decorated with {memo[0]} and receives `{live[0]}`: every value it was ever called with stays referenced by the cache "
+                             "(nodes dropped by the program stay alive and registered), and equal-but-distinct values share one answer")
+            else:
+                ck.holds(rule, (m_.rel, q), fn, what)
+    if n == 0:
+        ck.holds(rule, (modnames[0], "*"), None, f"no memoised function in {', '.join(modnames)}")
+
+
+def r_late_binding(ck: Checker, rule: str, modnames: tuple[str, ...]) -> None:
+    """A generator expression / lambda created in a loop and *stored* (append / add / insert / subscript store — not consumed on the spot)
+    evaluates its delayed part when it is finally consumed; a loop variable it reads names, by then, the element of the last iteration
+    (only the first iterable of a generator expression is evaluated when it is created).  Positive pattern."""
+    STORE = ("append", "appendleft", "add", "insert", "put", "setdefault")
+    n = 0
+    for modname in modnames:
+        m_ = ck.repo.mod(modname)
+        for q, fn, _cls in _raw_functions(m_):
+            for lp in [x for x in ast.walk(fn) if isinstance(x, (ast.For, ast.While))]:
+                rebound = {t.id for x in lp.body for t in ast.walk(x) if isinstance(t, ast.Name) and isinstance(t.ctx, ast.Store)}
+                if isinstance(lp, ast.For):
+                    rebound |= {t.id for t in ast.walk(lp.target) if isinstance(t, ast.Name)}
+                for x in [y for b in lp.body for y in ast.walk(b)]:
+                    lazies: list[ast.expr] = []
+                    if isinstance(x, ast.Call) and isinstance(x.func, ast.Attribute) and x.func.attr in STORE and x.args:
+                        lazies = [a for a in x.args if isinstance(a, (ast.GeneratorExp, ast.Lambda))]
+                    elif isinstance(x, ast.Assign) and any(isinstance(t, ast.Subscript) for t in x.targets) and isinstance(x.value, (ast.GeneratorExp, ast.Lambda)):
+                        lazies = [x.value]
+                    for lz in lazies:
+                        if isinstance(lz, ast.GeneratorExp):
+                            own = {t.id for g in lz.generators for t in ast.walk(g.target) if isinstance(t, ast.Name)}
+                            delayed: list[ast.AST] = [lz.elt]
+                            for i, g in enumerate(lz.generators):
+                                delayed += g.ifs
+                                if i:
+                                    delayed.append(g.iter)
+                        else:
+                            own = {a.arg for a in lz.args.args + lz.args.kwonlyargs}
+                            # a default argument binds early: `lambda x, f=f: ...`
+                            delayed = [lz.body]
+                        used = {t.id for d in delayed for t in ast.walk(d) if isinstance(t, ast.Name) and isinstance(t.ctx, ast.Load)} - own
+                        hit = sorted(used & rebound)
+                        n += 1
+                        what = f"{q}: a lazy group stored in a loop reads no variable the loop re-binds"
+                        if hit:
+                            ck.violation(rule, (m_.rel, q), lz, what, positive=True,
+                                         construct=f"{q}: {norm(lz)[:60]} is stored, not consumed; when it runs, `{hit[0]}` is what the last iteration left in it (late binding)")
+                        else:
+                            ck.holds(rule, (m_.rel, q), lz, what)
+    if n == 0:
+        ck.holds(rule, (modnames[0], "*"), None, f"no generator expression / lambda is stored from inside a loop in {', '.join(modnames)}")
+
+
+def r_no_raw_construction(ck: Checker, rule: str, modname: str, classes: tuple[str, ...]) -> None:
+    """Values of validated classes come into being through their constructors: `object.__new__(C)` + attribute stores skips
+    `__post_init__`, i.e. every invariant the class checks there (positive pattern)."""
+    m_ = ck.repo.mod(modname)
+    n = 0
+    for q, fn, _cls in _raw_functions(m_):
+        for x in ast.walk(fn):
+            if isinstance(x, ast.Call) and dotted(x.func) in ("object.__new__",) and x.args and (dotted(x.args[0]) or "") in classes:
+                n += 1
+                ck.violation(rule, (m_.rel, q), x, f"{q}: {dotted(x.args[0])} values are built by calling the class (its __post_init__ validates them)", positive=True,
+                             construct=f"{q}: {norm(x)} builds the value behind the constructor's back — the checks of {dotted(x.args[0])}.__post_init__ do not run")
+    if n == 0:
+        ck.holds(rule, (m_.rel, "*"), None, f"no object.__new__ of {', '.join(classes)} in {modname}")
+
+
+def r_who_calls(ck: Checker, rule: str, modnames: tuple[str, ...], callee: str, allowed: tuple[str, ...], why: str) -> None:
+    """Who-may-call: `callee` is called only from the listed functions (positive pattern: a call site elsewhere)."""
+    n = 0
+    for modname in modnames:
+        m_ = ck.repo.mod(modname)
+        for q, fn, _cls in _raw_functions(m_):
+            if q in allowed or q.split(".")[-1] == callee:
+                continue
+            for x in ast.walk(fn):
+                if isinstance(x, ast.Call) and ((isinstance(x.func, ast.Attribute) and x.func.attr == callee) or (isinstance(x.func, ast.Name) and x.func.id == callee)):
+                    n += 1
+                    ck.violation(rule, (m_.rel, q), x, f"`{callee}` is called only by {', '.join(allowed) or 'the user'} ({why})", positive=True,
+                                 construct=f"{q} calls {norm(x)[:50]} — {why}")
+    if n == 0:
+        ck.holds(rule, (modnames[0], "*"), None, f"`{callee}` has no call site in the library outside {', '.join(allowed) or 'user code'} ({why})")
